@@ -74,16 +74,10 @@ func (a C16Arg) refLiteral() string {
 		}
 		return sq.StrLit(a.S)
 	case "i":
-		if strings.HasPrefix(a.S, "-") {
-			return " " + a.S
-		}
+		// (no blank before the sign: after a template's own `--` a blank would open a line comment)
 		return a.S
 	case "f":
-		s := strconv.FormatFloat(a.F, 'f', -1, 64)
-		if strings.HasPrefix(s, "-") {
-			return " " + s
-		}
-		return s
+		return strconv.FormatFloat(a.F, 'f', -1, 64)
 	case "b":
 		if a.B {
 			return "TRUE"
@@ -299,9 +293,9 @@ func genC16(t *rapid.T) any {
 			text("name")
 		case 2:
 			if n, ok := next(); ok {
-				text(rapid.SampledFrom([]string{"- ", "-", "5 -", "5 - ", "5-", "5 + ", "(", "7 * "}).Draw(t, l+".pre"))
+				text(rapid.SampledFrom([]string{"- ", "-", "5 -", "5 - ", "5-", "5 + ", "(", "7 * ", "--", "5 --", "- -", "5 - -", "-(", "+", "5 +-"}).Draw(t, l+".pre"))
 				ph(n)
-				if c.Segs[len(c.Segs)-2].S == "(" {
+				if strings.HasSuffix(c.Segs[len(c.Segs)-2].S, "(") {
 					text(")")
 				}
 				text(fmt.Sprintf(" AS v%d", i))
